@@ -62,6 +62,58 @@ Loops and iterator chains (option `loops=True`, second pass; whole functions, no
   anything but a plain `let mut` variable (`v[i] = e`, fields), `.filter`, `.flat_map`, `.chunks`, `match`, `if let`,
   closures that are not the argument of `.map` / `.fold`.
 
+In-place mutation, nested loops, decision trees (option `mut=True`, third pass; implies `loops`)
+  * `let mut v: Vec<f64>` (from `x.to_vec()`, `vec![e; n]` = `List.replicate n e`, `vec![a, b]`, `Vec::with_capacity(n)` followed by
+    `unsafe { v.set_len(n); }` = `n` uninitialised cells, spelled by the option `uninit`) updated by `v[e] = rhs;` /
+    `v[e] op= rhs;` (`let v := List.set v e rhs'`), `v.swap(a, b);` (`let v := <swap_fn> v a b`), `v.extend_from_slice(w);`
+    (`v ++ w`), `v.push(e);` — inside nested `for` loops over `lo..hi` / `(lo..hi).rev()`; the loop state is the tuple of the
+    assigned `let mut` variables in declaration order, as in the second pass.  `Vec<i32>` / `Vec<usize>` are `List Int` /
+    `List Nat`; `x as i32` of a usize is the cast `Nat → Int`, `p as usize` of an i32 is `Int.toNat` (wrap-around NOT modelled).
+  * reads `v[i]` of an f64 vector are spelled by the option `index_read` (e.g. `Cv.LA.rd v i`; default `v[i]!`), slices
+    `&v[lo..hi]` / `&v[..hi]` / `&v[lo..]` are `take (hi - lo) (drop lo v)` / `take hi v` / `drop lo v`, `x.split_at(k)` is the pair
+    `(take k x, drop k x)`, `x.split_first().unwrap()` is `(x[0]!, x.tail)`.  As for reads in the second pass, the panics of
+    indexing / slicing (and the no-op of `List.set` out of range) are NOT modelled; the option is the acknowledgement.
+  * `if c { .. } [else { .. }]` statements whose blocks fall through and only mutate: `let state := if c then (..; state') else
+    (..; state')`.  Nothing inside a branch (of an `if` statement or expression) is hoisted in front of the `if`.
+  * early exit: a function returning `Option<T>` (`Some(e)` = `some e`, `None` = `none`; with panics the result is
+    `Option (Option T)`, outer `none` = panic) may `return None` inside (nested) `for` loops: such a loop is
+    `List.foldlM (m := Option)`, its body ends in `some state'`, an `if` containing the `return` is translated in continuation
+    style (`if c then (A; rest) else (B; rest)`); after the loop `match fold with | none => <None> | some state => rest`
+    (inside another such loop: `(fold).bind fun state => rest`).  `opt.unwrap()` / `.expect(..)` of an `Option` VALUE is a bind.
+  * calls through the table `fns`; a spelling containing `{0}` is a template (`"Cv.LA.isSquare {0}.length"`); `bool_methods` for
+    f64 methods returning bool (`x.is_nan()`); `assert!(f(x))` of a panicking bool function binds the call first.
+  * decision trees on shapes: a parameter of a struct type listed in `struct_types` is one binder per field (`m.nrows` =
+    `m_nrows`), `m.shape()` (`struct_methods`) the tuple of fields; fixed-size arrays `[a, b]` / `[T; 2]` / `let [a, b] = e;` are
+    tuples; `==` on such tuples of integers is the conjunction of the component equalities, `.contains(&k)` the disjunction;
+    enum values `Enum::Ctor(args)` are spelled by `adts` / `adt_ctors`; a recursive call goes through `fns` to a parameter.
+  * fragment kind `for` (`closure=dict(kind="for", index=n, free={rust name: (lean binder, type[, "mut"])})`): the n-th
+    outermost `for` loop of a function whose body as a whole is outside the subset, as a function of its declared free
+    variables; the value is the tuple of the `mut` ones after the loop.
+  * fragment kind `assign` (`closure=dict(kind="assign", name=x, index=n, free=.., index_vars=..)`): the right-hand side of the n-th
+    assignment `x = e;` / `x[..] = e;` as a scalar formula.  An `index_vars` entry `(binder, "var")` declares an element of a
+    `Vec<reverse::Var>` (a tape variable, represented by its value): `Var - f64` / `Var + f64` are spelled as the `reverse` crate
+    implements them, `val + (-rhs)` / `val + rhs`.
+  Fourth pass (same option):
+  * `#[cfg(feature = "x")] { .. }` / `#[cfg(not(..))] { .. }` (also `all` / `any`) blocks inside a function body are resolved
+    with the option `cfg_features` (the features the crate is built with): a block that is not compiled in is skipped, the
+    enabled one must end the enclosing block and is inlined.  Without the option: `Unsupported`.
+  * panic sources inside a branch of an `if` EXPRESSION (`let a = if t { transpose(a, r) } else { a.to_vec() };`): the `if` is
+    evaluated in `Option` (each branch carries its own guards / binds and ends in `some v`) and bound; the short circuits
+    `p && q` / `p || q` with a panicking `q`: `q` is only evaluated when `p` does not decide (same construction).
+  * panic sources inside a LOOP BODY (`assert!`, calls of panicking functions, `.unwrap()`): the loop is a
+    `List.foldlM (m := Option)` in the panic `Option` (body statements carry their guards / binds, the body ends in
+    `some state'`), followed by `.bind fun state => rest`.  A guard that already wraps an enclosing statement (the `0 < bsize` of
+    an outer loop header) is not repeated inside.  Checked `usize` subtraction / division inside a loop body stay outside.
+  * `if let Some(x) = e { A } else { B }` (tail position, or as a statement: the rest of the block is duplicated into both arms):
+    `match e with | some x => A | none => B`; `match x { Enum::A => e1, .., _ => en }` on an enum value as a pure value.
+  * ranges of `i32` (`0..n as i32`): the list of the casts `lo + (k : Int)`, `k < toNat (hi - lo)`; `x as usize` of an f64 is
+    spelled by the option `f64_to_usize`; `true` / `false`; an array literal of f64 is a list.
+  * a `let mut m = <value of a struct type listed in struct_mk>` is exploded into its fields (`m.data[i] = e` updates the field
+    `data`), the value `m` is rebuilt with the constructor `struct_mk[type]`; the return type `Self` is the impl's type.
+  Still outside: `while` / `loop`, `break` / `continue`, `return` of anything but `None` inside a loop, checked `usize`
+  subtraction / division inside a loop body or a branch, `match` with bindings or guards, `if let` on other patterns,
+  `&mut` arguments, struct literals, iterator adaptors not listed above.
+
 Everything else raises `Unsupported` — never a silent approximation.
 
 What is preserved exactly: the expression tree of every float operation (association, operand order, where
@@ -539,7 +591,32 @@ class Parser:
                     self.i += 1
                 stmts.append(N("return", e=e))
                 continue
-            if t.k == "id" and t.s in ("match", "unsafe", "fn", "use", "const", "static", "struct", "impl"):
+            if t.k == "p" and t.s == "#" and self.peek(1).s == "[" and getattr(self.src, "allow_mut", False):
+                close = self.mt[self.i + 1]
+                feats = getattr(self.src, "cfg_features", None)
+                if self.peek(2).s != "cfg" or self.peek(3).s != "(" or self.mt[self.i + 3] != close - 1:
+                    raise Unsupported("attribute `#[%s ..]` inside a function body" % self.peek(2).s)
+                if feats is None:
+                    raise Unsupported("`#[cfg(..)]` inside a function body (option cfg_features)")
+                on = self._cfg_eval(self.i + 4, close - 1, feats)
+                self.i = close + 1
+                if not self.at("{"):
+                    raise Unsupported("`#[cfg(..)]` on something that is not a block")
+                if not on:
+                    self.i = self.mt[self.i] + 1            # not compiled in: skipped
+                    continue
+                blk = self.braced_block()                   # compiled in: must end the enclosing block; inlined
+                if self.i < self.hi:
+                    raise Unsupported("code after an enabled `#[cfg(..)]` block")
+                stmts.extend(blk.stmts)
+                tail = blk.tail
+                continue
+            if t.k == "id" and t.s == "unsafe" and self.peek(1).s == "{" and getattr(self.src, "allow_mut", False):
+                self.i += 1                                   # `unsafe { x.set_len(n); }` (checked by the translator)
+                stmts.append(N("unsafe", body=self.braced_block()))
+                continue
+            if t.k == "id" and t.s in ("match", "unsafe", "fn", "use", "const", "static", "struct", "impl") \
+                    and not (t.s == "match" and getattr(self.src, "allow_mut", False)):
                 raise Unsupported("`%s` inside a function body" % t.s)
             e = self.expr()
             if self.at(";"):
@@ -547,7 +624,7 @@ class Parser:
                 stmts.append(N("exprstmt", e=e))
             elif self.i >= self.hi:
                 tail = e
-            elif e.kind == "if" or e.kind == "block":
+            elif e.kind in ("if", "block", "iflet"):
                 stmts.append(N("exprstmt", e=e))     # block-like expression statement without ';'
             elif any(self.at(op) for op in ASSIGN_OPS):
                 op = self.peek().s
@@ -565,13 +642,39 @@ class Parser:
                 raise Unsupported("unexpected token %r after expression (offset %d)" % (t.s, t.pos))
         return N("block", stmts=stmts, tail=tail)
 
+    def _cfg_eval(self, lo, hi, feats):
+        """value of a cfg predicate (tokens lo..hi): `feature = "x"`, `not(p)`, `all(p, ..)`, `any(p, ..)`"""
+        T = self.T
+        if lo >= hi:
+            raise Unsupported("empty cfg predicate")
+        if T[lo].s == "feature" and hi - lo == 3 and T[lo + 1].s == "=" and T[lo + 2].k == "str":
+            return T[lo + 2].s.strip('"') in feats
+        if T[lo].s in ("not", "all", "any") and T[lo + 1].s == "(" and self.mt[lo + 1] == hi - 1:
+            parts, start, i = [], lo + 2, lo + 2
+            while i < hi - 1:
+                if T[i].s in ("(", "[", "{"):
+                    i = self.mt[i]
+                elif T[i].s == ",":
+                    parts.append((start, i))
+                    start = i + 1
+                i += 1
+            if start < hi - 1:
+                parts.append((start, hi - 1))
+            vals = [self._cfg_eval(a, b, feats) for a, b in parts]
+            if T[lo].s == "not":
+                if len(vals) != 1:
+                    raise Unsupported("cfg `not` arity")
+                return not vals[0]
+            return all(vals) if T[lo].s == "all" else any(vals)
+        raise Unsupported("cfg predicate `%s`" % " ".join(t.s for t in T[lo:hi]))
+
     def let_stmt(self):
         self.eat("let")
         mut = False
         if self.at("mut"):
             mut = True
             self.i += 1
-        if self.at("("):
+        if self.at("(") or (self.at("[") and getattr(self.src, "allow_mut", False)):
             close = self.mt[self.i]
             names = []
             p = self.sub(self.i + 1, close)
@@ -620,7 +723,15 @@ class Parser:
         return b
 
     # ---- expressions
+    def _range_end(self):
+        """is the token after a `..` the end of the expression (an open range `lo..` / `..`)"""
+        return self.i >= self.hi or (self.peek().k == "p" and self.peek().s in (",", ";", ")", "]", "}", "{"))
+
     def expr(self, minprec=0):
+        if self.at("..") and getattr(self.src, "allow_mut", False) and minprec <= BINPREC[".."]:
+            self.i += 1                                       # `..hi` / `..`
+            hi = None if self._range_end() else self.expr(BINPREC[".."] + 1)
+            return N("range", lo=None, hi=hi, incl=False)
         left = self.unary()
         while True:
             t = self.peek()
@@ -641,6 +752,9 @@ class Parser:
                 break
             op = t.s
             self.i += 1
+            if op == ".." and getattr(self.src, "allow_mut", False) and self._range_end():
+                left = N("range", lo=left, hi=None, incl=False)    # `lo..`
+                continue
             if op in ("..", "..="):
                 right = self.expr(prec + 1)
                 left = N("range", lo=left, hi=right, incl=(op == "..="))
@@ -742,6 +856,16 @@ class Parser:
             if len(items) == 1 and not trailing:
                 return N("paren", e=items[0])
             return N("tuple", items=items)
+        if t.k == "p" and t.s == "[" and getattr(self.src, "allow_mut", False):
+            close = self.mt[self.i]
+            p = self.sub(self.i + 1, close)
+            items = []
+            while p.i < p.hi:
+                items.append(p.expr())
+                if p.i < p.hi:
+                    p.eat(",")
+            self.i = close + 1
+            return N("array", items=items)
         if t.k == "p" and t.s == "{":
             return self.braced_block()
         if t.k == "p" and t.s in ("|", "||"):
@@ -751,6 +875,8 @@ class Parser:
             return self.closure()
         if t.k == "id" and t.s == "if":
             return self.if_expr()
+        if t.k == "id" and t.s == "match" and getattr(self.src, "allow_mut", False):
+            return self.match_expr()
         if t.k == "id" and t.s in ("match", "loop", "while", "for", "unsafe"):
             raise Unsupported("`%s` expression" % t.s)
         if t.k == "id":
@@ -777,8 +903,77 @@ class Parser:
             return N("path", segs=segs)
         raise Unsupported("unexpected token %r (offset %d)" % (t.s, t.pos))
 
+    def match_expr(self):
+        """`match scrutinee { Path => e, Path(x) => e, _ => e }` (patterns: enum paths with identifier arguments, `_`)"""
+        self.eat("match")
+        j = self.i
+        while not (self.T[j].k == "p" and self.T[j].s == "{"):
+            if self.T[j].s in ("(", "["):
+                j = self.mt[j]
+            j += 1
+            if j >= self.hi:
+                raise Unsupported("`match` shape")
+        scrut = self.sub(self.i, j).expr()
+        close = self.mt[j]
+        p = self.sub(j + 1, close)
+        arms = []
+        while p.i < p.hi:
+            if p.at("_"):
+                pat, pargs = None, []
+                p.i += 1
+            else:
+                if p.peek().k != "id":
+                    raise Unsupported("`match` pattern %r" % p.peek().s)
+                segs = [p.peek().s]
+                p.i += 1
+                while p.at("::"):
+                    segs.append(p.peek(1).s)
+                    p.i += 2
+                pargs = []
+                if p.at("("):
+                    cl = p.mt[p.i]
+                    q = p.sub(p.i + 1, cl)
+                    while q.i < q.hi:
+                        if q.peek().k != "id":
+                            raise Unsupported("`match` pattern argument %r" % q.peek().s)
+                        pargs.append(q.peek().s)
+                        q.i += 1
+                        if q.i < q.hi:
+                            q.eat(",")
+                    p.i = cl + 1
+                pat = segs
+            if p.at("if"):
+                raise Unsupported("`match` guard")
+            p.eat("=>")
+            body = p.expr()
+            if p.i < p.hi:
+                if p.at(","):
+                    p.i += 1
+                elif body.kind not in ("block", "if", "match"):
+                    raise Unsupported("`match` arm separator")
+            arms.append((pat, pargs, body))
+        self.i = close + 1
+        return N("match", scrut=scrut, arms=arms)
+
     def if_expr(self):
         self.eat("if")
+        if self.at("let") and getattr(self.src, "allow_mut", False):
+            # `if let Some(x) = e { A } else { B }`
+            self.i += 1
+            if not (self.at("Some") and self.peek(1).s == "(" and self.peek(2).k == "id" and self.peek(3).s == ")"
+                    and self.peek(4).s == "="):
+                raise Unsupported("`if let` pattern (only `Some(x)`)")
+            var = self.peek(2).s
+            self.i += 5
+            scrut = self.expr()
+            then = self.braced_block()
+            els = None
+            if self.at("else"):
+                self.i += 1
+                if self.at("if"):
+                    raise Unsupported("`if let .. else if`")
+                els = self.braced_block()
+            return N("iflet", var=var, scrut=scrut, then=then, els=els)
         if self.at("let"):
             raise Unsupported("`if let`")
         c = self.expr()
@@ -878,8 +1073,25 @@ class Opts:
         self.fn_ret = {}              # rust fn name -> return type of a called function, e.g. ("tup", ("nat","f64","f64"))
         self.opt_fns = ()             # called functions whose Lean spelling returns `Option` (the Rust function can panic)
         self.fn_params = {}           # generic closure parameters `f: F` -> Lean type of the binder, e.g. {"f": "α → α"}
+        # ---- third pass (option `mut`): in-place mutation / nested loops / decision trees, see the module docstring
+        self.mut = False              # implies `loops`
+        self.index_read = None        # spelling of a read `v[i]` of an f64 vector, e.g. "Cv.LA.rd {0} {1}"; None: `v[i]!`
+        self.swap_fn = "Cv.LA.swapIdx"   # spelling of `v.swap(a, b)`: `let v := <swap_fn> v a b`
+        self.uninit = "(List.replicate {0} 0)"   # contents of `Vec::with_capacity(n)` + `set_len(n)` (uninitialised memory)
+        self.bool_methods = {}        # f64 methods returning bool, e.g. {"is_nan": "Cv.LA.isNan {0} = true"}
+        self.adts = {}                # Rust enum type name -> Lean type, e.g. {"Broadcast": "Cv.Bc"}
+        self.adt_ctors = {}           # "Broadcast::Vstack" -> Lean constructor term (applied to the translated arguments)
+        self.struct_types = {}        # struct type of a parameter -> [(field, type)]: binders `<param>_<field>`
+        self.struct_methods = {}      # method on such a parameter -> list of fields: `m.shape()` = the tuple of these fields
+        self.cfg_features = None      # the cargo features the crate is built with (tuple of names): `#[cfg(feature = ..)] { .. }`
+                                      # blocks that are not compiled in are skipped, the enabled one is inlined; None: Unsupported
+        self.f64_to_usize = None      # spelling of `x as usize` of an f64 (saturating cast), e.g. "toUsize {0}"
+        self.struct_mk = {}           # struct type -> Lean constructor: a `let mut m = <struct value>` is exploded into its
+                                      # fields (`m.data[i] = e` mutates the field), the value `m` is rebuilt with it
         self.doc = None
         self.__dict__.update(kw)
+        if self.mut:
+            self.loops = True
 
 
 # ======================================================================================= literals
@@ -929,6 +1141,7 @@ def lit_to_lean(text, named):
 
 # ======================================================================================= translator
 F, I, U, B, V = "f64", "int", "nat", "bool", "vec"
+VAR = "var"        # a tape variable `reverse::Var` (third pass, fragments only): its VALUE, with the crate's operator overloads
 INTLIT = "intlit"
 
 
@@ -949,7 +1162,7 @@ def rust_ty(ty):
     return None
 
 
-LEAN_TY = {F: "α", I: "Int", U: "Nat", B: "Bool", V: "List α"}
+LEAN_TY = {F: "α", I: "Int", U: "Nat", B: "Bool", V: "List α", VAR: "α"}
 
 
 # ---- types of the loop / iterator subset (option `loops`): scalars as above, and
@@ -1003,11 +1216,17 @@ def lean_ty(t):
         return "%s × Nat" % _tyatom(t[1])
     if k == "win":
         return "α × α"
+    if k == "opt":
+        return "Option " + _tyatom(t[1])
+    if k == "adt":
+        return t[2]
     raise Unsupported("type %r" % (t,))
 
 
-def rust_ty2(s):
-    """Rust type text (tokens joined without spaces) -> type of the loop subset, or None"""
+def rust_ty2(s, adts=None):
+    """Rust type text (tokens joined without spaces) -> type of the loop subset, or None
+    (`adts`: None, or — third pass, option `mut` — the enum type names of the option `adts`; only then `Option<T>` and
+    `[T; k]` are types of the subset)"""
     s = re.sub(r"&('\w+)?", "", s.strip())
     if s.startswith("mut"):
         s = s[3:]
@@ -1025,13 +1244,24 @@ def rust_ty2(s):
                 cur += ch
         if cur:
             parts.append(cur)
-        tys = tuple(rust_ty2(x) for x in parts)
+        tys = tuple(rust_ty2(x, adts) for x in parts)
         if None in tys or not tys:
             return None
         return tys[0] if len(tys) == 1 else ("tup", tys)
+    m = re.fullmatch(r"Option<(.*)>", s) if adts is not None else None
+    if m:
+        inner = rust_ty2(m.group(1), adts)
+        return None if inner is None else ("opt", inner)
+    m = re.fullmatch(r"\[(.*);(\d+)\]", s) if adts is not None else None
+    if m:                                       # a fixed-size array `[T; k]` is a k-tuple
+        inner = rust_ty2(m.group(1), adts)
+        k = int(m.group(2))
+        return None if inner is None or k < 1 else (inner if k == 1 else ("tup", (inner,) * k))
+    if adts and s in adts:
+        return ("adt", s, adts[s])
     m = re.fullmatch(r"Vec<(.*)>|\[(.*)\]", s)
     if m:
-        inner = rust_ty2(m.group(1) or m.group(2))
+        inner = rust_ty2(m.group(1) or m.group(2), adts)
         return None if inner is None else mk_list(inner)
     if s == "Vector":
         return V
@@ -1048,6 +1278,8 @@ def compat(a, b):
         return compat(elem_ty(a), elem_ty(b))
     if is_tup(a) and is_tup(b) and len(a[1]) == len(b[1]):
         return all(compat(x, y) for x, y in zip(a[1], b[1]))
+    if isinstance(a, tuple) and isinstance(b, tuple) and a[0] == "opt" and b[0] == "opt":
+        return a[1] is None or b[1] is None or compat(a[1], b[1])      # `None` literal: ("opt", None)
     return False
 
 
@@ -1076,10 +1308,15 @@ class Translator:
         self.need_option = False
         self.fresh_n = 0
         self.decl_order = []          # `let mut` names in declaration order (order of the loop-state tuple)
+        self.mloop = 0                # > 0 inside the body of a loop with an early `return None` (a `List.foldlM` in `Option`)
+        self.ploop = 0                # > 0 inside the body of a loop that can panic (a `List.foldlM` in the panic `Option`)
+
+    def ty2(self, s):
+        return rust_ty2(s, self.o.adts if self.o.mut else None)
 
     # ---- names
     def lname(self, rust):
-        n = self.o.rename.get(rust, rust)
+        n = self.o.rename.get(rust, rust).replace(".", "_")
         if n in LEAN_KEYWORDS:
             n = n + "_"
         return n
@@ -1087,6 +1324,8 @@ class Translator:
     # ---- entry
     def run(self):
         self.src.allow_assign = bool(self.o.loops)
+        self.src.allow_mut = bool(self.o.mut)
+        self.src.cfg_features = self.o.cfg_features if self.o.mut else None
         try:
             out = self._run(False)
             if self.need_option and not self.started_option:
@@ -1097,6 +1336,8 @@ class Translator:
             return out
         finally:
             self.src.allow_assign = False
+            self.src.allow_mut = False
+            self.src.cfg_features = None
 
     def _run(self, force_option):
         o, fn, src = self.o, self.fn, self.src
@@ -1125,7 +1366,7 @@ class Translator:
                 for f, ty in src.structs[fn.impl]:
                     if o.self_fields is not None and f not in o.self_fields:
                         continue
-                    rt = rust_ty2(ty) if o.loops else rust_ty(ty)
+                    rt = self.ty2(ty) if o.loops else rust_ty(ty)
                     if rt is None or (rt == V and not (o.vectors or o.loops)):
                         if o.self_fields is not None:
                             raise Unsupported("field %s: type %s" % (f, ty))
@@ -1140,7 +1381,22 @@ class Translator:
                 binders.append((self.lname(name), o.fn_params[name]))
                 o.fns.setdefault(name, self.lname(name))
                 continue
-            rt = rust_ty2(self._macro_ty(ty)) if o.loops else rust_ty(self._macro_ty(ty))
+            rt = self.ty2(self._macro_ty(ty)) if o.loops else rust_ty(self._macro_ty(ty))
+            sname = re.sub(r"&('\w+)?", "", ty)
+            if rt is None and o.mut and sname in o.struct_types:
+                # a struct parameter `m: &Matrix`: one binder per listed field, `m.field` / `m.method()` are spelled with them
+                comps = []
+                for f, fty in o.struct_types[sname]:
+                    ln = self.lname("%s_%s" % (name, f))
+                    env["%s.%s" % (name, f)] = (ln, fty)
+                    binders.append((ln, lean_ty(fty)))
+                    comps.append(ln)
+                for mname, fields in o.struct_methods.get(sname, {}).items():
+                    fl = dict(o.struct_types[sname])
+                    env["%s.%s" % (name, mname)] = ("(%s)" % ", ".join(env["%s.%s" % (name, f)][0] for f in fields),
+                                                   ("tup", tuple(fl[f] for f in fields)))
+                env[name] = (" ".join(comps), ("struct", sname))
+                continue
             if rt is None or (rt == V and not (o.vectors or o.loops)):
                 raise Unsupported("parameter %s: type %s" % (name, ty))
             env[name] = (self.lname(name), rt)
@@ -1179,7 +1435,9 @@ class Translator:
             if m_:                                          # `Ok(e)` = `some e`, `Err(..)` = `none`
                 rtxt = m_.group(1)
                 self.option_mode = self.started_option = True
-            self.ret_ty = rust_ty2(rtxt) if rtxt else None
+            if o.mut and rtxt == "Self" and fn.impl:
+                rtxt = fn.impl
+            self.ret_ty = self.ty2(rtxt) if rtxt else None
             if self.ret_ty is None:
                 raise Unsupported("return type %s" % self.src.snippet(fn.ret))
         elif ret != F and not o.closure:
@@ -1275,7 +1533,12 @@ class Translator:
                                                    "unimplemented", "todo", "debug_assert"):
             return True
         if node.kind == "loop":
-            return False
+            return bool(self.o.mut) and self._loop_can_panic(self._parse_for(node)[2])
+        if self.o.mut and node.kind == "call" and ("::".join(node.path) in self.o.opt_fns or node.path[-1] in self.o.opt_fns):
+            return True
+        if self.o.mut and node.kind == "method" and node.name in ("unwrap", "expect") and not (
+                node.recv.kind == "method" and node.recv.name == "split_first"):      # (an index panic: not modelled)
+            return True
         return any(self._can_panic(v) for v in node.__dict__.values() if isinstance(v, (N, list)))
 
     def _has_return(self, node):
@@ -1285,6 +1548,8 @@ class Translator:
             return False
         if node.kind == "return":
             return True
+        if node.kind == "loop" and self.o.mut:
+            return self._has_return(self._parse_for(node)[2])
         return any(self._has_return(v) for v in node.__dict__.values() if isinstance(v, (N, list)))
 
     def _diverges(self, blk):
@@ -1319,6 +1584,13 @@ class Translator:
         """an expression whose value is returned"""
         if e.kind == "paren" and e.e.kind in ("if", "block"):
             e = e.e
+        if e.kind == "iflet" and self.o.mut:
+            return self.iflet_stmt(e, env, d, None)
+        if self.mloop:
+            # inside the body of a loop with early exit (`List.foldlM` in `Option`): the only `return` is `return None`
+            if e.kind == "var" and e.name == "None" and isinstance(self.ret_ty, tuple) and self.ret_ty[0] == "opt":
+                return self.ind(d) + "none"
+            raise Unsupported("`return` of anything but `None` inside a loop body")
         if e.kind == "if" and self.option_mode and not self._can_panic(e) and not self._has_return(e) \
                 and not getattr(self, "result_ret", False):
             # a pure conditional value of a function that can panic elsewhere: `some (if .. then .. else ..)`
@@ -1374,6 +1646,8 @@ class Translator:
         return v, pre
 
     def add_pre(self, item, what):
+        if item[0] == "guard" and any(item in lst for lst in self.pre_stack):
+            return                    # the same guard already wraps an enclosing statement (e.g. `0 < bsize` of an outer loop header)
         if self.in_closure:
             raise Unsupported("%s inside a closure / loop body (a panic there cannot be hoisted)" % what)
         if not self.pre_stack:
@@ -1430,10 +1704,29 @@ class Translator:
         if s.kind == "loop":
             if self.o.loops_as_params:
                 return rest()
+            if self.o.mut and self._has_return(self._parse_for(s)[2]):
+                return self.mloop_stmt(s, env, d, rest)
+            if self.o.mut and self._loop_can_panic(self._parse_for(s)[2]):
+                return self.mloop_stmt(s, env, d, rest, panic=True)
             if loops:
                 lines, pre = self.collect(lambda: self.loop_lines(s, env, d))
                 return self.wrap(pre, lines + rest(env), d)
             raise Unsupported("loop `%s`" % s.head)
+        if self.o.mut:
+            handler = None
+            if s.kind == "assign" and s.target.kind == "index":
+                handler = lambda: self.index_assign_lines(s, env, d)
+            elif s.kind == "exprstmt" and s.e.kind == "method" and s.e.name == "swap":
+                handler = lambda: self.swap_lines(s.e, env, d)
+            elif s.kind == "exprstmt" and s.e.kind == "method" and s.e.name == "extend_from_slice":
+                handler = lambda: self.extend_lines(s.e, env, d)
+            elif s.kind == "unsafe":
+                handler = lambda: self.unsafe_lines(s, env, d)
+            elif s.kind == "exprstmt" and s.e.kind == "if" and not self._has_return(s.e) and not self._can_panic(s.e):
+                handler = lambda: self.mut_if_lines(s.e, env, d)
+            if handler is not None:
+                lines, pre = self.collect(handler)
+                return self.wrap(pre, lines + rest(env), d)
         if s.kind == "assign":
             if not loops:
                 raise Unsupported("assignment `%s` (mutation is outside the subset)" % s.op)
@@ -1442,8 +1735,16 @@ class Translator:
         if loops and s.kind == "exprstmt" and s.e.kind == "method" and s.e.name == "push":
             lines, pre = self.collect(lambda: self.push_lines(s.e, env, d))
             return self.wrap(pre, lines + rest(env), d)
-        if finish is not None and (s.kind == "return" or (s.kind == "exprstmt" and s.e.kind in ("macro", "if"))):
+        if self.o.mut and s.kind == "exprstmt" and s.e.kind == "iflet":
+            return self.iflet_stmt(s.e, env, d, rest)
+        if self.o.mut and s.kind == "exprstmt" and s.e.kind == "if" and self._has_return(s.e) and not self._can_panic(s.e) \
+                and (finish is None or self.mloop) and not self._diverges_if(s.e):
+            return self.cont_if_stmt(s.e, env, d, rest)
+        if finish is not None and not self.mloop and not self.ploop and (
+                s.kind == "return" or (s.kind == "exprstmt" and s.e.kind in ("macro", "if"))):
             raise Unsupported("`%s` inside a loop body (early exit / panic)" % (s.kind if s.kind == "return" else s.e.kind))
+        if finish is not None and s.kind == "exprstmt" and s.e.kind == "macro" and not self.ploop:
+            raise Unsupported("macro `%s!` inside a loop body (a panic there cannot be hoisted)" % s.e.name)
         if s.kind == "return":
             if s.e is None:
                 raise Unsupported("`return;`")
@@ -1500,12 +1801,21 @@ class Translator:
         v, ty = self.expr(s.e, env)
         if loops:
             ty = deflt(ty) if is_tup(ty) else ty
+            if ty == ("list", None) and self.o.mut and s.ty is not None and self.ty2(s.ty) not in (None, V) \
+                    and is_list(self.ty2(s.ty)):
+                want = self.ty2(s.ty)             # `let mut v: Vec<Vec<f64>> = Vec::with_capacity(n);`: the declared type
+                env[s.pat] = ("([] : %s)" % lean_ty(want), want)
+                self._declare(s.pat, env, bool(s.mut))
+                return ""
             if ty == ("list", None):              # `let mut v = Vec::new();`: no `let` line, the empty list is substituted
                 env[s.pat] = ("[]", ty)
                 self._declare(s.pat, env, bool(s.mut))
+                env.pop(self.CAP + s.pat, None)
+                if self.o.mut and s.e.kind == "call" and s.e.path == ["Vec", "with_capacity"] and len(s.e.args) == 1:
+                    env[self.CAP + s.pat] = self.atom(self.expr(s.e.args[0], env)[0])
                 return ""
         if s.ty is not None:
-            want = rust_ty2(s.ty) if loops else rust_ty(s.ty)
+            want = self.ty2(s.ty) if loops else rust_ty(s.ty)
             if want is None or (want != ty and not (ty == INTLIT and want in (I, U)) and not (loops and compat(ty, want))):
                 raise Unsupported("let %s: %s := <%s>" % (s.pat, s.ty, ty))
             ty = want
@@ -1513,11 +1823,16 @@ class Translator:
         env[s.pat] = (ln, ty)
         if loops:
             self._declare(s.pat, env, bool(s.mut))
+        if self.o.mut and isinstance(ty, tuple) and ty[0] == "adt" and ty[1] in self.o.struct_mk and ty[1] in self.o.struct_types:
+            for f, fty in self.o.struct_types[ty[1]]:          # a struct value: its fields are places of their own
+                env["%s.%s" % (s.pat, f)] = ("%s.%s" % (ln, f), fty)
+                self._declare("%s.%s" % (s.pat, f), env, bool(s.mut))
         return "%slet %s : %s := %s\n" % (self.ind(d), ln, self._lean_ty(ty), v)
 
     # ---- mutation and loops (option `loops`)
     MUT = "\0mut:"        # env keys: is the Rust variable `mut`;  LO: known lower bound (Lean text) of a usize variable
     LO = "\0lo:"
+    CAP = "\0cap:"        # capacity (Lean text) of a `let mut x = Vec::with_capacity(n)` (option `mut`: checked by `set_len`)
 
     def _declare(self, name, env, mut):
         env.pop(self.LO + name, None)
@@ -1617,14 +1932,168 @@ class Translator:
         return node.parsed
 
     def _assigned(self, blk, acc):
-        for s in blk.stmts:
+        stmts = list(blk.stmts)
+        if self.o.mut and blk.tail is not None:
+            stmts.append(N("exprstmt", e=blk.tail))
+        for s in stmts:
             if s.kind == "assign" and s.target.kind == "var":
                 acc.append(s.target.name)
             elif s.kind == "exprstmt" and s.e.kind == "method" and s.e.name == "push" and s.e.recv.kind == "var":
                 acc.append(s.e.recv.name)
             elif s.kind == "loop":
                 self._assigned(self._parse_for(s)[2], acc)
+            elif not self.o.mut:
+                continue
+            elif s.kind == "assign" and s.target.kind == "index" and s.target.e.kind == "var":
+                acc.append(s.target.e.name)
+            elif s.kind == "assign" and s.target.kind == "index" and s.target.e.kind == "field" and s.target.e.e.kind == "var":
+                acc.append("%s.%s" % (s.target.e.e.name, s.target.e.name))
+            elif s.kind == "exprstmt" and s.e.kind == "method" and s.e.name in ("swap", "extend_from_slice") \
+                    and s.e.recv.kind == "var":
+                acc.append(s.e.recv.name)
+            elif s.kind == "exprstmt" and s.e.kind == "if":
+                self._assigned_if(s.e, acc)
         return acc
+
+    def _assigned_if(self, e, acc):
+        self._assigned(e.then, acc)
+        if e.els is not None:
+            self._assigned(e.els, acc)
+
+    # ---- third pass (option `mut`): in-place mutation of `let mut` vectors, `if` statements that only mutate
+    def _mut_list(self, name, env, what):
+        if name not in env or not env.get(self.MUT + name):
+            raise Unsupported("%s `%s`, which is not a `let mut` variable in scope" % (what, name))
+        ty = env[name][1]
+        if not is_list(ty) or ty == ("list", None) or (isinstance(ty, tuple) and ty[0] == "range"):
+            raise Unsupported("%s `%s` of type %s" % (what, name, ty))
+        return ty
+
+    def index_assign_lines(self, s, env, d):
+        """`v[e] = rhs;` / `v[e] op= rhs;` on a `let mut` vector: `let v := List.set v e rhs'` (a shadowing `let`; an index
+        out of range panics in Rust and is a no-op of `List.set`: NOT modelled, as for reads)"""
+        t = s.target
+        if self.o.mut and t.e.kind == "field" and t.e.e.kind == "var" and ("%s.%s" % (t.e.e.name, t.e.name)) in env:
+            name = "%s.%s" % (t.e.e.name, t.e.name)            # `m.data[i] = e` on an exploded struct value
+        elif t.e.kind != "var":
+            raise Unsupported("element assignment to a `%s` expression" % t.e.kind)
+        else:
+            name = t.e.name
+        lty = self._mut_list(name, env, "element assignment to")
+        if t.idx.kind == "range":
+            raise Unsupported("assignment to a slice")
+        i, ti = self.expr(t.idx, env)
+        if ti not in (U, INTLIT):
+            raise Unsupported("element assignment with an index of type %s" % (ti,))
+        if s.op == "=":
+            v, ty = self.expr(s.e, env)
+        elif s.op in ("+=", "-=", "*=", "/="):
+            v, ty = self.expr(N("bin", op=s.op[0], l=t, r=s.e), env)
+        else:
+            raise Unsupported("assignment operator `%s`" % s.op)
+        if not compat(ty, elem_ty(lty)):
+            raise Unsupported("assignment of a %s to an element of `%s` of type %s" % (ty, name, lty))
+        ln = self.lname(name)
+        out = "%slet %s : %s := (List.set %s %s %s)\n" % (self.ind(d), ln, lean_ty(lty), self.atom(env[name][0]),
+                                                          self.atom(i), self.atom(v))
+        env[name] = (ln, lty)
+        return out
+
+    def swap_lines(self, e, env, d):
+        """`v.swap(a, b);` on a `let mut` vector: `let v := <swap_fn> v a b`"""
+        if e.recv.kind != "var" or len(e.args) != 2:
+            raise Unsupported("`swap` shape")
+        name = e.recv.name
+        lty = self._mut_list(name, env, "`swap` on")
+        a, ta = self.expr(e.args[0], env)
+        b, tb = self.expr(e.args[1], env)
+        if ta not in (U, INTLIT) or tb not in (U, INTLIT):
+            raise Unsupported("`swap` with indices of type %s, %s" % (ta, tb))
+        ln = self.lname(name)
+        out = "%slet %s : %s := (%s %s %s %s)\n" % (self.ind(d), ln, lean_ty(lty), self.o.swap_fn, self.atom(env[name][0]),
+                                                    self.atom(a), self.atom(b))
+        env[name] = (ln, lty)
+        return out
+
+    def extend_lines(self, e, env, d):
+        """`v.extend_from_slice(w);` on a `let mut` vector: `let v := v ++ w`"""
+        if e.recv.kind != "var" or len(e.args) != 1:
+            raise Unsupported("`extend_from_slice` shape")
+        name = e.recv.name
+        lty = self._mut_list(name, env, "`extend_from_slice` on")
+        w, tw = self.expr(e.args[0], env)
+        if not is_list(tw) or not compat(elem_ty(tw), elem_ty(lty)):
+            raise Unsupported("`extend_from_slice` of a %s onto %s" % (tw, lty))
+        ln = self.lname(name)
+        out = "%slet %s : %s := (%s ++ %s)\n" % (self.ind(d), ln, lean_ty(lty), self.atom(env[name][0]), self.atom(w))
+        env[name] = (ln, lty)
+        return out
+
+    def unsafe_lines(self, s, env, d):
+        """`unsafe { x.set_len(n); }` right after `let mut x = Vec::with_capacity(n);`: a vector of `n` uninitialised f64
+        (spelled by the option `uninit`)"""
+        b = s.body
+        sts = list(b.stmts) + ([N("exprstmt", e=b.tail)] if b.tail is not None else [])
+        if len(sts) != 1 or sts[0].kind != "exprstmt" or sts[0].e.kind != "method" or sts[0].e.name != "set_len" \
+                or sts[0].e.recv.kind != "var" or len(sts[0].e.args) != 1:
+            raise Unsupported("`unsafe` block (only `x.set_len(n);`)")
+        name = sts[0].e.recv.name
+        if name not in env or not env.get(self.MUT + name) or env[name] != ("[]", ("list", None)):
+            raise Unsupported("`set_len` on `%s`, which is not a fresh `Vec::with_capacity(..)`" % name)
+        n, tn = self.expr(sts[0].e.args[0], env)
+        if tn not in (U, INTLIT):
+            raise Unsupported("`set_len` argument of type %s" % (tn,))
+        if env.get(self.CAP + name) != self.atom(n):
+            raise Unsupported("`set_len(%s)` differs from the capacity of `%s`" % (n, name))
+        ln = self.lname(name)
+        env[name] = (ln, V)
+        return "%slet %s : List α := %s\n" % (self.ind(d), ln, self.o.uninit.format(self.atom(n)))
+
+    def _state(self, M, env):
+        """the loop / branch state of the `let mut` variables M -> (types, finish function)"""
+        tys = [env[x][1] for x in M]
+        finish = lambda e, dd: self.ind(dd) + ("(%s)" % ", ".join(e[x][0] for x in M) if len(M) > 1 else e[M[0]][0])
+        return tys, finish
+
+    def _stmt_block(self, blk):
+        """a block used as a statement: its tail expression (if any) is its last statement"""
+        if blk.tail is None:
+            return blk.stmts
+        return blk.stmts + [N("exprstmt", e=blk.tail)]
+
+    def mut_if_lines(self, e, env, d):
+        """`if c { .. } [else { .. }]` whose blocks fall through and only mutate `let mut` variables of the enclosing scope:
+        `let state := if c then (block; state') else (block; state')`, state as for loops (declaration order)."""
+        acc = []
+        self._assigned_if(e, acc)
+        M = [x for x in self.decl_order if x in acc and x in env and env.get(self.MUT + x)]
+        if not M:
+            raise Unsupported("`if` statement that assigns no `let mut` variable of the enclosing scope")
+        for x in M:
+            if env[x][1] == ("list", None):
+                env[x] = ("([] : List α)", V)
+        c = self.cond(e.c, env)
+        tys, finish = self._state(M, env)
+        self.in_closure += 1            # nothing inside a branch can be hoisted in front of the `if`
+        try:
+            then = self.tail_stmts(self._stmt_block(e.then), 0, None, dict(env), d + 2, finish)
+            if e.els is None:
+                els = finish(env, d + 2)
+            else:
+                els = self.tail_stmts(self._stmt_block(e.els), 0, None, dict(env), d + 2, finish)
+        finally:
+            self.in_closure -= 1
+        if len(M) == 1:
+            st, sty = self.lname(M[0]), tys[0]
+        else:
+            st, sty = self.fresh("st"), ("tup", tuple(tys))
+        out = "%slet %s : %s := if %s then\n%s\n%selse\n%s\n" % (self.ind(d), st, lean_ty(sty), c, then, self.ind(d + 1), els)
+        if len(M) == 1:
+            env[M[0]] = (st, sty)
+        else:
+            for k, x in enumerate(M):
+                env[x] = (self.proj(st, k, len(M)), tys[k])
+        return out
 
     def bind_pattern(self, pat, ty, env, hint="p"):
         """bind a closure / `for` pattern to a value of type ty -> (binder name, binder type); tuple components are
@@ -1693,6 +2162,166 @@ class Translator:
                 env[x] = (self.proj(st, k, len(M)), tys[k])
         return out
 
+    def _loop_can_panic(self, blk):
+        """does the body of a loop contain a panic source that the subset can express (assert!, call of a panicking function,
+        unwrap) — nested loops included"""
+        for st in self._stmt_block(blk):
+            if st.kind == "loop":
+                if self._loop_can_panic(self._parse_for(st)[2]):
+                    return True
+            elif self._can_panic(st):
+                return True
+        return False
+
+    def _diverges_if(self, e):
+        return self._diverges(e.then) and (e.els is None or self._diverges(e.els) or (
+            e.els.tail is not None and e.els.tail.kind == "if" and not e.els.stmts and self._diverges_if(e.els.tail)))
+
+    def _let_names(self, blk, acc):
+        for s in self._stmt_block(blk):
+            if s.kind == "let":
+                acc.extend(s.pat if isinstance(s.pat, list) else [s.pat])
+        return acc
+
+    def cont_if_stmt(self, e, env, d, rest):
+        """`if c { A } [else { B }]` followed by the rest R of the block, where A or B contains an early `return`:
+        `if c then (A; R) else (B; R)` — the continuation is duplicated into the branches (each branch may leave early)."""
+        c, pre = self.collect(lambda: self.cond(e.c, env))
+
+        def branch(blk):
+            if blk is None:
+                return self._indent_more(rest(env))
+            shadow = [x for x in self._let_names(blk, []) if x in env]
+            if shadow:
+                raise Unsupported("`let %s` inside a branch with an early `return` shadows a variable of the enclosing scope" % shadow[0])
+            benv = dict(env)
+
+            def fin(e2, dd):
+                env3 = dict(env)
+                for x in env:
+                    if not x.startswith("\0") and env.get(self.MUT + x) and x in e2:
+                        env3[x] = e2[x]                      # the mutated variables; block-local `let`s go out of scope
+                return self._indent_more(rest(env3))
+            return self.tail_stmts(self._stmt_block(blk), 0, None, benv, d + 1, fin)
+        self.in_closure += 1
+        try:
+            then = branch(e.then)
+            if e.els is not None and e.els.tail is not None and e.els.tail.kind == "if" and not e.els.stmts \
+                    and self._has_return(e.els.tail) and not self._diverges_if(e.els.tail):
+                els = self.cont_if_stmt(e.els.tail, env, d + 1, lambda env2=env: self._indent_more(rest(env2)))
+            else:
+                els = branch(e.els)
+        finally:
+            self.in_closure -= 1
+        return self.wrap(pre, "%sif %s then\n%s\n%selse\n%s" % (self.ind(d), c, then, self.ind(d), els), d)
+
+    def iflet_stmt(self, e, env, d, rest):
+        """`if let Some(x) = e { A } else { B }`: `match e with | some x => A' | none => B'`.  In tail position (`rest` None) the
+        blocks are values; as a statement the rest R of the enclosing block is duplicated into both arms (`A; R`, `B; R`)."""
+        (sv, sty), pre = self.collect(lambda: self.expr(e.scrut, env))
+        if not (isinstance(sty, tuple) and sty[0] == "opt" and sty[1] is not None):
+            raise Unsupported("`if let Some(..)` on a value of type %s" % (sty,))
+        if e.els is None and rest is None:
+            raise Unsupported("`if let` without `else` in value position")
+
+        def arm(blk, bind):
+            benv = dict(env)
+            if bind:
+                benv[e.var] = (self.lname(e.var), sty[1])
+                self._declare(e.var, benv, False)
+            if rest is None:
+                return self.tail_block(blk, benv, d + 2)
+            if blk is None:
+                return self._indent_more(self._indent_more(rest(env)))
+            shadow = [x for x in self._let_names(blk, []) if x in env]
+            if shadow:
+                raise Unsupported("`let %s` inside an `if let` arm shadows a variable of the enclosing scope" % shadow[0])
+
+            def fin(e2, dd):
+                env3 = dict(env)
+                for x in env:
+                    if not x.startswith("\0") and env.get(self.MUT + x) and x in e2:
+                        env3[x] = e2[x]
+                return self._indent_more(self._indent_more(rest(env3)))
+            return self.tail_stmts(self._stmt_block(blk), 0, None, benv, d + 2, fin)
+        some_arm = arm(e.then, True)
+        none_arm = arm(e.els, False)
+        out = "%smatch %s with\n%s| some %s =>\n%s\n%s| none =>\n%s" % (
+            self.ind(d), sv, self.ind(d), self.lname(e.var), some_arm, self.ind(d), none_arm)
+        return self.wrap(pre, out, d)
+
+    def mloop_stmt(self, s, env, d, rest, panic=False):
+        """`panic=True`: a loop whose body can PANIC (`assert!`, call of a panicking function): the same `List.foldlM` in the
+        panic `Option` (the body's statements carry their guards / binds, it ends in `some state'`), followed by
+        `(<fold>).bind fun state => rest`.
+        `for pat in iter { body }` whose body contains `return None` (a function returning `Option<T>`):
+        `List.foldlM (m := Option) (fun state item => body; some state') state iter`; `return None` is `none`.
+        At function level:  `match <fold> with | none => <the function's None> | some state => rest`;
+        inside the body of another such loop:  `(<fold>).bind fun state => rest`."""
+        if panic:
+            if self.mloop or self._has_return(self._parse_for(s)[2]):
+                raise Unsupported("a loop body with both a panic source and an early `return`")
+            self.need_option = True
+            if not self.option_mode:
+                raise Unsupported("panic source inside a loop body of a function translated without `Option`")
+        elif not (isinstance(self.ret_ty, tuple) and self.ret_ty[0] == "opt"):
+            raise Unsupported("early `return` inside a loop of a function that does not return `Option`")
+        pat, it, body = self._parse_for(s)
+        assigned = self._assigned(body, [])
+        M = [x for x in self.decl_order if x in assigned and x in env and env.get(self.MUT + x)]
+        if not M:
+            raise Unsupported("loop `%s` assigns no `let mut` variable of the enclosing scope" % s.head)
+        (itv, itty), pre = self.collect(lambda: self.expr(it, env))
+        if not is_list(itty):
+            raise Unsupported("`for` over a value of type %s" % (itty,))
+        for x in M:
+            if env[x][1] == ("list", None):
+                env[x] = ("([] : List α)", V)
+        tys, _ = self._state(M, env)
+        init = [env[x][0] for x in M]
+        benv = dict(env)
+        if len(M) == 1:
+            st, sty = self.lname(M[0]), tys[0]
+            benv[M[0]] = (st, sty)
+            init_txt = init[0]
+        else:
+            st, sty = self.fresh("st"), ("tup", tuple(tys))
+            for k, x in enumerate(M):
+                benv[x] = (self.proj(st, k, len(M)), tys[k])
+            init_txt = "(%s)" % ", ".join(init)
+        pn, pty = self.bind_pattern(pat, elem_ty(itty), benv)
+        if isinstance(pat, str) and isinstance(itty, tuple) and itty[0] == "range":
+            benv[self.LO + pat] = itty[1]
+        finish = lambda e, dd: self.ind(dd) + "some " + (
+            "(%s)" % ", ".join(e[x][0] for x in M) if len(M) > 1 else self.atom(e[M[0]][0]))
+        saved = (self.in_closure, self.ploop)
+        if panic:
+            self.in_closure, self.ploop = 0, self.ploop + 1     # statements of the body carry their own guards / binds
+        else:
+            self.in_closure += 1
+            self.mloop += 1
+        try:
+            btxt = self.tail_stmts(body.stmts, 0, None, benv, d + 2, finish)
+        finally:
+            self.in_closure, self.ploop = saved
+            if not panic:
+                self.mloop -= 1
+        fold = "List.foldlM (m := Option) (fun (%s : %s) (%s : %s) =>\n%s) %s %s" % (
+            st, lean_ty(sty), pn, lean_ty(pty), btxt, self.atom(init_txt), self.atom(itv))
+        env2 = dict(env)
+        if len(M) == 1:
+            env2[M[0]] = (st, sty)
+        else:
+            for k, x in enumerate(M):
+                env2[x] = (self.proj(st, k, len(M)), tys[k])
+        if self.mloop or panic:
+            out = "%s(%s).bind fun (%s : %s) =>\n%s" % (self.ind(d), fold, st, lean_ty(sty), self._indent_more(rest(env2)))
+        else:
+            none = "some none" if self.option_mode else "none"
+            out = "%smatch %s with\n%s| none => %s\n%s| some %s =>\n%s" % (
+                self.ind(d), fold, self.ind(d), none, self.ind(d), st, self._indent_more(rest(env2)))
+        return self.wrap(pre, out, d)
+
     def _lean_ty(self, ty):
         if self.o.loops and (ty == V or not isinstance(ty, str)):
             return lean_ty(ty)
@@ -1713,6 +2342,10 @@ class Translator:
             p = Parser(self.src, *e.rng)
             c = p.expr()
             self.option_mode = True
+            if self.o.mut:                # the condition may call a panicking function (`assert!(is_symmetric(a))`)
+                cv, pre = self.collect(lambda: self.cond(c, env))
+                return self.wrap(pre, "%sif %s then\n%s\n%selse none" % (
+                    self.ind(d), cv, self._indent_more(rest()), self.ind(d)), d)
             return "%sif %s then\n%s\n%selse none" % (self.ind(d), self.cond(c, env), self._indent_more(rest()), self.ind(d))
         if e.name in ("assert_eq", "assert_ne"):
             p = Parser(self.src, *e.rng)
@@ -1794,12 +2427,25 @@ class Translator:
                 return "(%d : %s)" % (q, "Int" if suf.startswith("i") else "Nat"), I if suf.startswith("i") else U
             return str(int(q)), INTLIT
         if k == "var":
+            if o.mut and e.name in env and isinstance(env[e.name][1], tuple) and env[e.name][1][0] == "adt" \
+                    and env[e.name][1][1] in o.struct_mk and (self.MUT + e.name + "." + o.struct_types[env[e.name][1][1]][0][0]) in env:
+                sty = env[e.name][1]                           # the struct rebuilt from its (possibly updated) fields
+                return "(%s %s)" % (o.struct_mk[sty[1]], " ".join(
+                    self.atom(env["%s.%s" % (e.name, f)][0]) for f, _ in o.struct_types[sty[1]])), sty
             if e.name in env:
                 return env[e.name]
+            if o.mut and e.name == "None":
+                return "none", ("opt", None)
+            if o.mut and e.name in ("true", "false"):
+                return e.name, B
             return self.const(e.name, env), F
         if k == "path":
+            if o.mut and "::".join(e.segs) in o.adt_ctors:
+                return self.adt_value("::".join(e.segs), [], env)
             return self.const("::".join(e.segs), env), F
         if k == "field":
+            if o.mut and e.e.kind == "var" and (e.e.name + "." + e.name) in env:
+                return env[e.e.name + "." + e.name]            # field of a struct parameter (option `struct_types`)
             if e.e.kind == "var" and e.e.name == "self":
                 key = "self." + e.name
                 if key not in env:
@@ -1809,7 +2455,7 @@ class Translator:
         if k == "un":
             if e.op in ("&", "*"):
                 v, ty = self.expr(e.e, env)
-                if ty not in (F, I, U, INTLIT, V):
+                if ty not in (F, I, U, INTLIT, V) and not (o.mut and (is_list(ty) or is_tup(ty) or ty == B)):
                     raise Unsupported("`%s` on %s" % (e.op, ty))
                 return v, ty                                   # reference / dereference of a Copy scalar (or a slice)
             v, ty = self.expr(e.e, env)
@@ -1850,6 +2496,11 @@ class Translator:
                 return v, ty
             if want == I and ty == U and o.int_arith:
                 return "((%s : Nat) : Int)" % v, I
+            if want == U and ty == F and o.mut and o.f64_to_usize:
+                return "(%s)" % o.f64_to_usize.format(self.atom(v)), U
+            if want == U and ty == I and o.mut and o.int_arith:
+                # `p as usize` of a signed integer: a negative `p` wraps to a huge index (out of bounds: not modelled)
+                return "(Int.toNat %s)" % self.atom(v), U
             if e.ty == "u64" and ty == I and o.wrapping_casts:
                 return "(%s %% 18446744073709551616).toNat" % self.atom(v), U
             raise Unsupported("cast of %s to %s" % (ty, e.ty))
@@ -1861,13 +2512,52 @@ class Translator:
             if e.els is None:
                 raise Unsupported("`if` without else as a value")
             c = self.cond(e.c, env)
-            a, ta = self.block_value(e.then, env)
-            b, tb = self.block_value(e.els, env)
+            if o.mut and self.pre_stack and not self.in_closure and (self._can_panic(e.then) or self._can_panic(e.els)):
+                # a branch can panic: the `if` is evaluated in `Option` (each branch hoists its own panic sources) and bound
+                def branch(blk):
+                    (v, ty), pre = self.collect(lambda: self.block_value(blk, env))
+                    return self.wrap(pre, "some %s" % self.atom(v), 0), ty
+                a, ta = branch(e.then)
+                b, tb = branch(e.els)
+                if not compat(ta, tb) and not compat(tb, ta):
+                    raise Unsupported("if branches of different types")
+                ty = tb if ta == INTLIT or (isinstance(ta, tuple) and ta[0] == "opt" and ta[1] is None) else ta
+                r = self.fresh("r")
+                self.add_pre(("bind", r, "(if %s then\n%s\nelse\n%s)" % (c, self._indent_more(a), self._indent_more(b)), deflt(ty)),
+                             "`if` with a panicking branch")
+                return r, deflt(ty)
+            self.in_closure += 1 if o.mut else 0      # a panic source inside a branch must not be hoisted in front of the `if`
+            try:
+                a, ta = self.block_value(e.then, env)
+                b, tb = self.block_value(e.els, env)
+            finally:
+                self.in_closure -= 1 if o.mut else 0
+            if ta != tb and o.mut and compat(ta, tb):
+                ta = tb = (tb if ta == INTLIT or (isinstance(ta, tuple) and ta[0] == "opt" and ta[1] is None) else ta)
             if ta != tb:
                 raise Unsupported("if branches of different types")
             return "(if %s then %s else %s)" % (c, a, b), ta
         if k == "block":
             return self.block_value(e, env)
+        if o.mut and k == "array":
+            if not e.items:
+                raise Unsupported("empty array literal")
+            vals = [self.expr(x, env) for x in e.items]       # `[a, b]`: a fixed-size array is a tuple
+            if all(t == F for _, t in vals):                  # .. except arrays of f64, which are only used as data: a list
+                return "[%s]" % ", ".join(v for v, _ in vals), V
+            if len(vals) == 1:
+                return "[%s]" % vals[0][0], mk_list(deflt(vals[0][1]))
+            return "(%s)" % ", ".join(v for v, _ in vals), ("tup", tuple(deflt(t) for _, t in vals))
+        if o.mut and k == "macro" and e.name == "vec":
+            return self.vec_macro(e, env)
+        if o.mut and k == "match":
+            return self.match_value(e, env)
+        if o.mut and k == "index" and o.closure and e.e.kind == "var" and \
+                (e.e.name, self.src.pretty(e.rng)) in o.closure.get("index_vars", {}):
+            ivv = o.closure["index_vars"][(e.e.name, self.src.pretty(e.rng))]     # a declared scalar of a fragment
+            if isinstance(ivv, tuple):                         # (binder, "var"): an element of a `Vec<Var>`
+                return ivv[0], {"var": VAR, "f64": F}[ivv[1]]
+            return ivv, F
         if o.loops and k in ("tuple", "tfield", "range", "closure", "index"):
             return self.loop_expr(e, env)
         if k == "index":
@@ -1876,6 +2566,8 @@ class Translator:
             if e.e.kind == "var":
                 key = (e.e.name, self.src.pretty(e.rng))
                 if key in iv:
+                    if isinstance(iv[key], tuple):             # (binder, "var"): an element of a `Vec<Var>`
+                        return iv[key][0], {"var": VAR, "f64": F}[iv[key][1]]
                     return iv[key], F
                 raise Unsupported("indexing `%s[%s]` (option index_vars)" % key)
             raise Unsupported("indexing")
@@ -1914,6 +2606,18 @@ class Translator:
     def binop(self, e, env):
         o = self.o
         op = e.op
+        if op in ("&&", "||") and o.mut and self._can_panic(e.r) and self.pre_stack and not self.in_closure:
+            # short circuit: the right operand (which can panic) is only evaluated when the left one does not decide
+            a = self.cond(e.l, env)
+            b, pre = self.collect(lambda: self.cond(e.r, env))
+            inner = self.wrap(pre, "some (decide %s)" % self.atom(b), 0)
+            r = self.fresh("r")
+            if op == "&&":
+                text = "(if %s then\n%s\nelse some false)" % (a, self._indent_more(inner))
+            else:
+                text = "(if %s then some true else\n%s)" % (a, self._indent_more(inner))
+            self.add_pre(("bind", r, text, B), "`%s` with a panicking right operand" % op)
+            return r, B
         if op in ("&&", "||"):
             a, b = self.cond(e.l, env), self.cond(e.r, env)
             return "%s %s %s" % (self.atom(a), "∧" if op == "&&" else "∨", self.atom(b)), B
@@ -1924,6 +2628,9 @@ class Translator:
         if op in ("+", "-", "*", "/"):
             if tl == F and tr == F:
                 return "(%s %s %s)" % (self.atom(l), op, self.atom(r)), F
+            if o.mut and tl == VAR and tr == F and op in ("+", "-"):
+                # `impl Sub<f64> for Var` of the `reverse` crate: `self.add(rhs.neg())`, i.e. `val + (-rhs)`; `Add<f64>`: `val + rhs`
+                return ("(%s + (-%s))" if op == "-" else "(%s + %s)") % (self.atom(l), self.atom(r)), VAR
             if (tl, tr) in VEC_BIN:
                 return VEC_BIN[(tl, tr)].format(op=op, l=self.atom(l), r=self.atom(r)), V
             ints = (I, U, INTLIT)
@@ -1949,6 +2656,15 @@ class Translator:
                     self.add_pre(("guard", "0 < %s" % self.atom(r)), "`usize` division `%s / %s`" % (l, r))
                 return "(%s %s %s)" % (self.atom(l), op, self.atom(r)), ty
             raise Unsupported("operator `%s` on %s and %s" % (op, tl, tr))
+        if op == "==" and o.mut and is_tup(tl) and is_tup(tr) and len(tl[1]) == len(tr[1]):
+            # arrays / tuples of integers: component-wise conjunction
+            cl, cr = self.components(e.l, l, tl), self.components(e.r, r, tr)
+            parts = []
+            for (a, ta), (b, tb) in zip(cl, cr):
+                if ta not in (I, U, INTLIT) or tb not in (I, U, INTLIT) or (ta != tb and INTLIT not in (ta, tb)):
+                    raise Unsupported("`==` on tuples with components of type %s, %s" % (ta, tb))
+                parts.append("%s = %s" % (self.atom(a), self.atom(b)))
+            return " ∧ ".join(parts), B
         if op in ("==", "!=", "<", ">", "<=", ">="):
             if tl == F and tr == F:
                 sym = {"==": "==", "!=": "!=", "<": "<", ">": ">", "<=": "≤", ">=": "≥"}[op]
@@ -1987,7 +2703,24 @@ class Translator:
         if o.loops and name == "unwrap" and not e.args and recv.kind == "call" and (
                 "::".join(recv.path) in o.opt_fns or recv.path[-1] in o.opt_fns):
             return self.expr(recv, env)             # `f(..).unwrap()`: the call is bound (`none` = Err / panic)
+        if o.mut and name == "unwrap" and not e.args and recv.kind == "method" and recv.name == "split_first" and not recv.args:
+            # `x.split_first().unwrap()` = `(&x[0], &x[1..])`: an index / slice panic on an empty slice, NOT modelled
+            r, tr = self.expr(recv.recv, env)
+            if not is_list(tr) or (isinstance(tr, tuple) and tr[0] == "range") or tr == ("list", None):
+                raise Unsupported("`.split_first()` on a value of type %s" % (tr,))
+            ra = self.atom(r)
+            return "(%s[0]!, (List.tail %s))" % (ra, ra), ("tup", (elem_ty(tr), norm_list(tr)))
+        if o.mut and recv.kind == "var" and (recv.name + "." + name) in env and not e.args:
+            return env[recv.name + "." + name]         # `m.shape()` of a struct parameter (option `struct_methods`)
         r, tr = self.expr(e.recv, env)
+        if o.mut and isinstance(tr, tuple) and tr[0] == "opt":
+            if name in ("unwrap", "expect") and tr[1] is not None:
+                v = self.fresh("r")                    # `None.unwrap()` panics: the value is bound (`none` = panic)
+                self.add_pre(("bind", v, r, tr[1]), "`.%s()` of an `Option`" % name)
+                return v, tr[1]
+            raise Unsupported("method `.%s` on an `Option`" % name)
+        if o.mut and is_tup(tr):
+            return self.tuple_method(e, r, tr, env)
         if o.loops and (is_list(tr) or isinstance(tr, tuple)):
             return self.iter_method(e, r, tr, env)
         if tr == V:
@@ -1998,6 +2731,8 @@ class Translator:
             raise Unsupported("method `.%s` on a vector" % name)
         if tr != F:
             raise Unsupported("method `.%s` on %s" % (name, tr))
+        if o.mut and name in o.bool_methods and not e.args:
+            return o.bool_methods[name].format(self.atom(r)), B
         if name == "powi":
             if len(e.args) != 1:
                 raise Unsupported("powi arity")
@@ -2031,6 +2766,16 @@ class Translator:
                 return "(List.replicate %s 1)" % self.atom(vals[0][0]), V
             if key in VEC_FNS and len(vals) == 2 and vals[0][1] == V and vals[1][1] == V:
                 return VEC_BIN[(V, V)].format(op=VEC_FNS[key], l=self.atom(vals[0][0]), r=self.atom(vals[1][0])), V
+        if o.mut and key in ("Vector::new", "Vector::from") and len(e.args) == 1 and key not in o.fns:
+            v, ty = self.expr(e.args[0], env)
+            if is_list(ty) and not (isinstance(ty, tuple) and ty[0] == "range"):
+                return v, ty                                  # `Vector` is a newtype of `Vec<f64>`
+            raise Unsupported("`%s` of a value of type %s" % (key, ty))
+        if o.mut and key == "Some" and len(e.args) == 1:
+            v, ty = self.expr(e.args[0], env)
+            return "(some %s)" % self.atom(v), ("opt", deflt(ty))
+        if o.mut and key in o.adt_ctors:
+            return self.adt_value(key, e.args, env)
         if o.loops and key in ("Vec::new", "Vec::with_capacity"):
             for a in e.args:
                 self.expr(a, env)
@@ -2041,9 +2786,17 @@ class Translator:
         if o.loops:
             # arguments of any type (slices, tuples); the result type is declared (`fn_ret`), read off the signature of a
             # function of the same file, or f64; a function that can panic (`opt_fns`) is bound before the statement
-            args = [self.atom(self.expr(a, env)[0]) for a in e.args]
+            args = []
+            for a in e.args:
+                av, aty = self.expr(a, env)
+                args.append(av if isinstance(aty, tuple) and aty[0] == "struct" else self.atom(av))
             rty = o.fn_ret.get(key, o.fn_ret.get(name)) or (self._sig_ret(name) if len(e.path) == 1 else None) or F
-            text = "(%s)" % " ".join([fn] + args)
+            if "{0}" in fn:                                    # a template: e.g. "Cv.LA.isSquare {0}.length"
+                if len(set(re.findall(r"\{(\d)\}", fn))) != len(args):
+                    raise Unsupported("call of `%s`: arity" % key)
+                text = "(%s)" % fn.format(*args)
+            else:
+                text = "(%s)" % " ".join([fn] + args)
             if key in o.opt_fns or name in o.opt_fns:
                 v = self.fresh("r")
                 self.add_pre(("bind", v, text, rty), "call of the panicking function `%s`" % key)
@@ -2062,7 +2815,7 @@ class Translator:
             return None
         rtxt = "".join(names[1:]).split("where")[0]
         m_ = re.fullmatch(r"Result<(.*),String>", rtxt)
-        return rust_ty2(m_.group(1) if m_ else rtxt)
+        return self.ty2(m_.group(1) if m_ else rtxt)
 
     # ---- the loop / iterator-chain subset: expressions (option `loops`)
     def loop_expr(self, e, env):
@@ -2082,11 +2835,48 @@ class Translator:
                 raise Unsupported("inclusive range")
             lo, tlo = self.expr(e.lo, env)
             hi, thi = self.expr(e.hi, env)
+            if self.o.mut and self.o.int_arith and I in (tlo, thi) and tlo in (I, INTLIT) and thi in (I, INTLIT):
+                # a range of signed integers: `lo + k` for `k = 0 .. (hi - lo)` (empty when `hi ≤ lo`: `Int.toNat` truncates)
+                lo, hi = self.atom(lo), self.atom(hi)
+                if lo == "0":
+                    return "(List.map (fun (k : Nat) => ((k : Nat) : Int)) (List.range (Int.toNat %s)))" % hi, ("list", I)
+                return "(List.map (fun (k : Nat) => (%s + ((k : Nat) : Int))) (List.range (Int.toNat (%s - %s))))" % (
+                    lo, hi, lo), ("list", I)
             if tlo not in (U, INTLIT) or thi not in (U, INTLIT):
                 raise Unsupported("range of %s .. %s (only usize)" % (tlo, thi))
             lo, hi = self.atom(lo), self.atom(hi)
             # `lo..hi` of usize: empty when hi ≤ lo (Lean's truncated `hi - lo` is the length)
             return ("(List.range %s)" % hi if lo == "0" else "(List.range' %s (%s - %s))" % (lo, hi, lo)), ("range", lo)
+        if k == "index" and e.idx.kind == "range" and self.o.mut:
+            # a slice `v[lo..hi]` / `v[..hi]` / `v[lo..]`: `take (hi - lo) (drop lo v)` (the panics of slicing — `hi < lo`,
+            # `hi > len` — are NOT modelled, as for element reads)
+            v, ty = self.expr(e.e, env)
+            if not is_list(ty) or (isinstance(ty, tuple) and ty[0] == "range") or ty == ("list", None):
+                raise Unsupported("slice of a value of type %s" % (ty,))
+            r = e.idx
+            if r.incl:
+                raise Unsupported("inclusive slice")
+            lo = hi = None
+            if r.lo is not None:
+                lo, tlo = self.expr(r.lo, env)
+                if tlo not in (U, INTLIT):
+                    raise Unsupported("slice bound of type %s" % (tlo,))
+                lo = self.atom(lo)
+            if r.hi is not None:
+                hi, thi = self.expr(r.hi, env)
+                if thi not in (U, INTLIT):
+                    raise Unsupported("slice bound of type %s" % (thi,))
+                hi = self.atom(hi)
+            va = self.atom(v)
+            if lo is None and hi is None:
+                return v, ty
+            if lo is None:
+                return "(List.take %s %s)" % (hi, va), norm_list(ty)
+            if hi is None:
+                return "(List.drop %s %s)" % (lo, va), norm_list(ty)
+            return "(List.take (%s - %s) (List.drop %s %s))" % (hi, lo, lo, va), norm_list(ty)
+        if k == "range" and (e.lo is None or e.hi is None):
+            raise Unsupported("open range outside a slice")
         if k == "index":
             v, ty = self.expr(e.e, env)
             i, ti = self.expr(e.idx, env)
@@ -2097,8 +2887,124 @@ class Translator:
             if not is_list(ty) or ti not in (U, INTLIT):
                 raise Unsupported("indexing a %s with a %s" % (ty, ti))
             # `x[i]`: the out-of-bounds panic is NOT modelled (`getElem!`); the option `loops` is the acknowledgement
+            if self.o.mut and self.o.index_read and elem_ty(ty) == F:
+                return "(%s)" % self.o.index_read.format(self.atom(v), self.atom(i)), F
             return "%s[%s]!" % (self.atom(v), i), elem_ty(ty)
         raise Unsupported("closure outside an iterator adaptor")
+
+    def components(self, e, v, ty):
+        """the components of a tuple-typed value: the items of a literal `(a, b)` / `[a, b]` text, else projections"""
+        n = len(ty[1])
+        v = v.strip()
+        if v.startswith("(") and self._balanced_outer(v):
+            parts, depth, cur = [], 0, ""
+            for ch in v[1:-1]:
+                if ch in "([":
+                    depth += 1
+                elif ch in ")]":
+                    depth -= 1
+                if ch == "," and depth == 0:
+                    parts.append(cur.strip())
+                    cur = ""
+                else:
+                    cur += ch
+            parts.append(cur.strip())
+            if len(parts) == n:
+                return list(zip(parts, ty[1]))
+        return [(self.proj(v, k, n), ty[1][k]) for k in range(n)]
+
+    def tuple_method(self, e, r, tr, env):
+        """`[a, b].contains(&x)` on an array of integers: `a = x ∨ b = x`"""
+        if e.name == "contains" and len(e.args) == 1:
+            x, tx = self.expr(e.args[0], env)
+            comps = self.components(e.recv, r, tr)
+            if tx not in (I, U, INTLIT) or any(t not in (I, U) for _, t in comps):
+                raise Unsupported("`.contains` on an array of %s" % (tr,))
+            return " ∨ ".join("%s = %s" % (self.atom(a), self.atom(x)) for a, _ in comps), B
+        raise Unsupported("method `.%s` on a value of type %s" % (e.name, tr))
+
+    def adt_value(self, key, args, env):
+        """an enum value `Enum::Ctor` / `Enum::Ctor(e, ..)` (options `adts`, `adt_ctors`)"""
+        o = self.o
+        tname = key.split("::")[0]
+        if tname not in o.adts:
+            raise Unsupported("enum `%s` has no Lean type (option `adts`)" % tname)
+        vals = []
+        for a in args:
+            v, ty = self.expr(a, env)
+            if ty not in (U, I, INTLIT, F):
+                raise Unsupported("enum constructor argument of type %s" % (ty,))
+            vals.append(self.atom(v))
+        text = " ".join([o.adt_ctors[key]] + vals)
+        return ("(%s)" % text if vals else text), ("adt", tname, o.adts[tname])
+
+    def match_value(self, e, env):
+        """`match x { Enum::A => e1, Enum::B => e2, _ => e3 }` on an enum value (option `adts`) as a pure value"""
+        sv, sty = self.expr(e.scrut, env)
+        if not (isinstance(sty, tuple) and sty[0] == "adt"):
+            raise Unsupported("`match` on a value of type %s" % (sty,))
+        arms, rty = [], None
+        self.in_closure += 1
+        try:
+            for pat, pargs, body in e.arms:
+                if pat is None:
+                    lp = "_"
+                else:
+                    key = "::".join(pat)
+                    if key not in self.o.adt_ctors or key.split("::")[0] != sty[1]:
+                        raise Unsupported("`match` pattern `%s` (option `adt_ctors`)" % key)
+                    if pargs:
+                        raise Unsupported("`match` pattern with arguments")
+                    lp = self.o.adt_ctors[key]
+                v, ty = (self.block_value(body, env) if body.kind == "block" else self.expr(body, env))
+                if rty is None:
+                    rty = deflt(ty)
+                elif not compat(ty, rty):
+                    raise Unsupported("`match` arms of different types")
+                arms.append("| %s => %s" % (lp, v))
+        finally:
+            self.in_closure -= 1
+        if not arms:
+            raise Unsupported("empty `match`")
+        return "(match %s with %s)" % (sv, " ".join(arms)), rty
+
+    def vec_macro(self, e, env):
+        """`vec![v; n]` -> `List.replicate n v`; `vec![a, b, ..]` -> `[a, b, ..]`"""
+        T = self.src.toks
+        lo, hi = e.rng
+        semi, i = None, lo
+        while i < hi:
+            if T[i].s in ("(", "[", "{"):
+                i = self.src.mt[i]
+            elif T[i].s == ";":
+                semi = i
+                break
+            i += 1
+        if semi is not None:
+            p = Parser(self.src, lo, semi)
+            ve = p.expr()
+            q = Parser(self.src, semi + 1, hi)
+            ne = q.expr()
+            if p.i != semi or q.i != hi:
+                raise Unsupported("`vec![v; n]` shape")
+            v, tv = self.expr(ve, env)
+            n, tn = self.expr(ne, env)
+            if tn not in (U, INTLIT):
+                raise Unsupported("`vec![v; n]` with a length of type %s" % (tn,))
+            return "(List.replicate %s %s)" % (self.atom(n), self.atom(v)), mk_list(deflt(tv))
+        p = Parser(self.src, lo, hi)
+        items = []
+        while p.i < p.hi:
+            items.append(p.expr())
+            if p.i < p.hi:
+                p.eat(",")
+        if not items:
+            raise Unsupported("`vec![]`")
+        vals = [self.expr(x, env) for x in items]
+        t0 = deflt(vals[0][1])
+        if any(not compat(t, t0) for _, t in vals):
+            raise Unsupported("`vec![..]` of mixed types")
+        return "[%s]" % ", ".join(v for v, _ in vals), mk_list(t0)
 
     def closure_fun(self, c, types, env, lo=None):
         """`|pats| body` applied to items of the given types -> (Lean `fun`, type of the body)"""
@@ -2176,6 +3082,10 @@ class Translator:
             if not compat(bty, tinit):
                 raise Unsupported("`.fold`: closure of type %s, seed of type %s" % (bty, tinit))
             return "(List.foldl %s %s %s)" % (fun, self.atom(init), ra), tinit
+        if o.mut and name == "split_at" and len(args) == 1:
+            k = nat_arg()                    # `(&x[..k], &x[k..])` (the panic for `k > len` is not modelled)
+            lt = norm_list(tr)
+            return "((List.take %s %s), (List.drop %s %s))" % (k, ra, k, ra), ("tup", (lt, lt))
         if name == "sum" and not args:
             if T != F or e.turbofish not in (None, "f64"):
                 raise Unsupported("`.sum` of items of type %s" % (T,))
@@ -2265,6 +3175,63 @@ class Translator:
             if p.i != p.hi:
                 raise Unsupported("call of `%s`: more than one argument" % callee)
             doc = "`%s`%s, argument of `%s(..)` #%d: `%s`" % (where, armtxt, callee, idx, self.src.pretty((i, mt[i + 1] + 1)))
+        elif kind == "assign":
+            # the right-hand side of the n-th assignment `<name> = e;` / `<name>[..] = e;` (option `mut`)
+            if not o.mut:
+                raise Unsupported("fragment kind `assign` needs the option `mut`")
+            name = cl["name"]
+            hits = []
+            for i in range(lo + 1, hi - 1):
+                if toks[i].k == "id" and toks[i].s == name and toks[i - 1].s in (";", "{", "}"):
+                    j = mt[i + 1] + 1 if toks[i + 1].s == "[" else i + 1
+                    if toks[j].s == "=":
+                        hits.append((i, j))
+            if idx >= len(hits):
+                raise NotFound("assignment to `%s` #%d (found %d)" % (name, idx, len(hits)))
+            i, j = hits[idx]
+            p = Parser(self.src, j + 1, hi)
+            expr = p.expr()
+            if not (p.at(";") or p.at("}") or p.i >= p.hi):
+                raise Unsupported("assignment to `%s`: the right-hand side does not end the statement" % name)
+            doc = "`%s`%s, assignment to `%s` #%d: `%s`" % (where, armtxt, name, idx, self.src.pretty((i, p.i)))
+        elif kind == "for":
+            # the n-th OUTERMOST `for` loop of the body as a function of its free variables (option `mut`):
+            # `free` {rust name: (lean binder, type[, "mut"])}; the value is the tuple of the `mut` variables after the loop
+            if not o.mut:
+                raise Unsupported("fragment kind `for` needs the option `mut`")
+            outer, end = [], -1
+            for i in range(lo, hi - 1):
+                if toks[i].k == "id" and toks[i].s == "for" and toks[i + 1].s != "<" and i > end:
+                    j = i
+                    while toks[j].s != "{":
+                        j = mt[j] + 1 if toks[j].s in ("(", "[") else j + 1
+                    outer.append((i, mt[j]))
+                    end = mt[j]
+            if idx >= len(outer):
+                raise NotFound("`for` loop #%d (found %d)" % (idx, len(outer)))
+            i, close = outer[idx]
+            blk = Parser(self.src, i, close + 1).block_body()
+            if not o.doc:
+                o.doc = "`%s`%s, `for` loop #%d: `%s`" % (where, armtxt, idx, self.src.pretty((i, close + 1)).replace(
+                    "-/", "- /").replace("/-", "/ -"))
+            TY = {"nat": U, "int": I, "f64": F, "vec": V, "bool": B}
+            env, binders, M = {}, [], []
+            for rn, spec in cl.get("free", {}).items():
+                ln, ty = spec[0], TY.get(spec[1], spec[1])
+                env[rn] = (ln, ty)
+                self._declare(rn, env, len(spec) > 2 and spec[2] == "mut")
+                if len(spec) > 2 and spec[2] == "mut":
+                    M.append(rn)
+                binders.append((ln, lean_ty(ty)))
+            if not M:
+                raise Unsupported("fragment kind `for`: no `mut` variable declared")
+            tys, finish = self._state(M, env)
+            self.option_mode = self.started_option = False
+            self.ret_ty = tys[0] if len(M) == 1 else ("tup", tuple(tys))
+            body = self.tail_stmts(blk.stmts, 0, None, env, 1, finish)
+            if self.need_option:
+                raise Unsupported("fragment kind `for`: a panic source outside the loops")
+            return self._emit_def(binders, lean_ty(self.ret_ty), body)
         elif kind == "arm":
             if not cl.get("arm") or not o.vectors:
                 raise Unsupported("fragment kind `arm` needs `arm` and the option `vectors`")
@@ -2298,6 +3265,8 @@ class Translator:
             cenv[rn] = (ln, ty)
             binders.append((ln, LEAN_TY[ty]))
         for _key, ln in cl.get("index_vars", {}).items():
+            if isinstance(ln, tuple):
+                ln = ln[0]
             if (ln, "α") not in binders:
                 binders.append((ln, "α"))
         ptypes = cl.get("param_types", {})
@@ -2320,7 +3289,12 @@ class Translator:
             if len(binders) != len(bd):
                 raise Unsupported("fragment binders not all listed")
         self.option_mode = False
-        v = self.fexpr(expr, cenv)
+        if o.mut and kind == "assign":
+            v, vty = self.expr(expr, cenv)
+            if vty not in (F, VAR):
+                raise Unsupported("expected an f64 / Var expression, found %s: %s" % (vty, v))
+        else:
+            v = self.fexpr(expr, cenv)
         return self._emit_def(binders, "α", "  " + v)
 
 
@@ -2435,6 +3409,41 @@ fn l_idxassign(x: &[f64]) -> f64 { let mut v = x.to_vec(); v[0] = 1.; v[0] }
 fn l_filter(x: &[f64]) -> f64 { x.iter().filter(|v| **v > 0.).sum::<f64>() }
 fn l_assert(x: &[f64]) -> f64 { let mut s = 0.; for v in x { assert!(*v > 0.); s += v; } s }
 fn l_immut(x: &[f64]) -> f64 { let s = 0.; for v in x { s += v; } s }
+fn m_fwd(l: &[f64], b: &[f64]) -> Vec<f64> { let n = sq(l).unwrap(); assert_eq!(b.len(), n); let mut x = Vec::with_capacity(n);
+    unsafe { x.set_len(n); } for i in 0..n { x[i] = (b[i] - dot(&l[(i * n)..(i * n + i)], &x[..i])) / l[i * n + i]; } x }
+fn m_rev(u: &[f64]) -> Vec<f64> { let n = u.len(); let mut x = vec![0.; n]; for k in (0..n).rev() { x[k] /= u[k]; for i in 0..k { x[i] -= x[k] * u[i]; } } x }
+fn m_piv(a: &[f64], n: usize) -> (Vec<f64>, Vec<i32>) { let mut lu = a.to_vec(); let mut piv: Vec<i32> = (0..n).map(|x| x as i32).collect();
+    for j in 0..n { let mut p = j; for i in (j + 1)..n { if lu[i].abs() > lu[p].abs() { p = i; } }
+        if p != j { lu.swap(p, j); piv.swap(p, j); } } (lu, piv) }
+fn m_perm(p: &[i32], b: &[f64]) -> Vec<f64> { let mut x = vec![0.; b.len()]; for i in 0..p.len() { x[i] = b[p[i] as usize]; } x }
+fn m_early(a: &[f64], n: usize) -> Option<Vec<f64>> { let mut l = vec![0.; n]; for i in 0..n { for j in 0..(i + 1) { let s = a[i] - l[j];
+    if i == j { if s <= 0. || s.is_nan() { return None; } l[i] = s.sqrt(); } else { l[i] = s / l[j]; } } } Some(l) }
+fn m_expect(a: &[f64]) -> Vec<f64> { m_early(a, 2).expect("no") }
+fn m_tree(m1: &Mx, m2: &Mx) -> [Bc; 2] { if m1.shape() == m2.shape() { [Bc::No, Bc::No] } else if m1.shape().contains(&1) {
+    assert!(m1.ncols == m2.ncols || m2.ncols == 1); if m1.nrows == 1 { [Bc::V(m2.nrows), Bc::No] } else { [Bc::Bad, Bc::Bad] } }
+    else { let [b1, b2] = m_tree(m2, m1); [b2, b1] } }
+fn m_jack(d: &[f64]) -> Vec<Vec<f64>> { let mut r: Vec<Vec<f64>> = Vec::with_capacity(d.len()); for i in 0..d.len() {
+    let (f, b) = d.split_at(i); let (_, rest) = b.split_first().unwrap(); let mut v = f.to_vec(); v.extend_from_slice(rest); r.push(v); } r }
+fn m_frag(a: &[f64], n: usize) -> Vec<f64> { let c0 = weird!(n); let mut c = c0; for i in 0..n { let t = a[i]; for j in 0..n { c[i * n + j] += t * a[j]; } } c }
+impl P { fn step(&self, g: &[f64]) { for p in 0..2 { m[p] = self.a * m[p] + g[p]; params[p] = params[p] - self.a * m[p] } } }
+fn m_hoist(a: &[f64], t: bool) -> Vec<f64> { let b = if t { tr(a).unwrap() } else { a.to_vec() }; b }
+fn m_while(a: &[f64]) -> Vec<f64> { let mut x = a.to_vec(); let mut k: usize = 0; while k < 2 { x[k] = 0.; k += 1; } x }
+fn m_assert(a: &[f64]) -> Vec<f64> { let mut x = a.to_vec(); for i in 0..2 { assert!(a[i] > 0.); x[i] = 1.; } x }
+fn m_retsome(a: &[f64]) -> Option<Vec<f64>> { let mut x = a.to_vec(); for i in 0..2 { if a[i] > 0. { return Some(x); } x[i] = 1.; } None }
+fn m_sub(a: &[f64], k: usize) -> Vec<f64> { let mut x = a.to_vec(); for i in 0..2 { x[i - k] = 1.; } x }
+fn m_setlen(n: usize) -> Vec<f64> { let mut x = Vec::with_capacity(n); unsafe { x.set_len(n + 1); } x }
+fn n_cfg(a: &[f64]) -> Vec<f64> { let n = a.len();
+    #[cfg(feature = "fast")] { unsafe { ext(n, b'T') } }
+    #[cfg(not(feature = "fast"))] { let mut x = a.to_vec(); for i in 0..n { x[i] = 0.; } x } }
+fn n_route(a: &[f64], b: &[f64]) -> Vec<f64> { let l = if pd(a) && sym(a) { chol(a) } else { None };
+    if let Some(l) = l { csolve(&l, b) } else { b.to_vec() } }
+fn n_cols(a: &[f64], n: usize, k: usize) -> Vec<f64> { let mut out = Vec::with_capacity(a.len());
+    for i in 0..k { let s = csolve(a, &a[(i * n)..((i + 1) * n)]); assert_eq!(s.len(), n); out.extend_from_slice(&s); } out }
+fn n_tiles(a: &[f64], n: usize, bs: usize) -> Vec<f64> { let mut c = vec![0.; n]; for jj in 0..(n / bs + 1) { for kk in 0..(n / bs + 1) { c[jj] += a[kk]; } } c }
+fn n_rot(angle: f64, axis: Ax) -> Vec<f64> { let d = match axis { Ax::X => [1., angle.cos()], Ax::Y => [angle.sin(), -1.] }; d.to_vec() }
+fn n_toep(x: &[f64]) -> Vec<f64> { let n = x.len(); let mut v = vec![0.; n]; for i in 0..n as i32 { v[i as usize] = x[(i - 1).abs() as usize]; } v }
+fn n_ar(a: f64, b: f64) -> Vec<f64> { let n = (b - a).ceil(); (0..n as usize).map(|i| a + i as f64).collect::<Vec<f64>>() }
+impl Mx { fn eye(d: usize) -> Self { let mut m = Self::zeros(d, d); for i in 0..d { m.data[i * d + i] = 1.; } m } }
 #[cfg(test)]
 mod tests { fn logistic(x: f64) -> f64 { x } }
 '''
@@ -2554,6 +3563,94 @@ def _selftest():
     refuse("l_immut", "assigns no `let mut` variable", **L)
     refuse("l_fold", "parameter data")                       # without the option nothing changes
     refuse("l_chain", "parameter x")
+    # ---- in-place mutation / nested loops / decision trees (option `mut`)
+    M = dict(mut=True, int_arith=True, index_read="R {0} {1}")
+    check("m_fwd", "(SQ l.length).bind fun (r1 : Nat) => let n : Nat := r1 if b.length = n then let x : List α := (List.map junk (List.range n)) "
+          "let x : List α := List.foldl (fun (x : List α) (i : Nat) => let x : List α := (List.set x i (((R b i) - (D (List.take (((i * n) + i) - (i * n)) "
+          "(List.drop (i * n) l)) (List.take i x))) / (R l ((i * n) + i)))) x) x (List.range n) some x else none",
+          fns={"sq": "SQ {0}.length", "dot": "D"}, fn_ret={"sq": "nat"}, opt_fns=("sq",), uninit="(List.map junk (List.range {0}))", **M)
+    check("m_rev", "let n : Nat := u.length let x : List α := (List.replicate n 0) let x : List α := List.foldl (fun (x : List α) (k : Nat) => "
+          "let x : List α := (List.set x k ((R x k) / (R u k))) let x : List α := List.foldl (fun (x : List α) (i : Nat) => "
+          "let x : List α := (List.set x i ((R x i) - ((R x k) * (R u i)))) x) x (List.range k) x) x (List.reverse (List.range n)) x", **M)
+    # two vectors in the loop state (declaration order), `if` statements that only mutate, `swap`, `Vec<i32>`
+    check("m_piv", "let lu : List α := a let piv : List Int := (List.map (fun (x : Nat) => ((x : Nat) : Int)) (List.range n)) "
+          "let st1 : (List α) × (List Int) := List.foldl (fun (st1 : (List α) × (List Int)) (j : Nat) => let p : Nat := j "
+          "let p : Nat := List.foldl (fun (p : Nat) (i : Nat) => let p : Nat := if (Cv.Transc.abs (R st1.1 i)) > (Cv.Transc.abs (R st1.1 p)) then "
+          "let p : Nat := i p else p p) p (List.range' (j + 1) (n - (j + 1))) let st2 : (List α) × (List Int) := if p ≠ j then "
+          "let lu : List α := (SW st1.1 p j) let piv : List Int := (SW st1.2 p j) (lu, piv) else (st1.1, st1.2) (st2.1, st2.2)) (lu, piv) (List.range n) "
+          "(st1.1, st1.2)", swap_fn="SW", **M)
+    check("m_perm", "let x : List α := (List.replicate b.length 0) let x : List α := List.foldl (fun (x : List α) (i : Nat) => "
+          "let x : List α := (List.set x i (R b (Int.toNat p[i]!))) x) x (List.range p.length) x", **M)
+    # early `return None` inside nested loops: foldlM in Option, continuation-style `if`, `match` after the outermost loop
+    check("m_early", "let l : List α := (List.replicate n 0) match List.foldlM (m := Option) (fun (l : List α) (i : Nat) => "
+          "(List.foldlM (m := Option) (fun (l : List α) (j : Nat) => let s : α := ((R a i) - (R l j)) if i = j then "
+          "if (s ≤ 0) ∨ (NAN s) then none else let l : List α := (List.set l i (Cv.Transc.sqrt s)) some l else "
+          "let l : List α := (List.set l i (s / (R l j))) some l) l (List.range (i + 1))).bind fun (l : List α) => some l) l (List.range n) with "
+          "| none => none | some l => (some l)", bool_methods={"is_nan": "NAN {0}"}, **M)
+    check("m_expect", "(E a 2).bind fun (r1 : Option (List α)) => r1.bind fun (r2 : List α) => some r2", fns={"m_early": "E"},
+          opt_fns=("m_early",), fn_ret={"m_early": ("opt", "vec")}, **M)
+    check("m_tree", "if m1_nrows = m2_nrows ∧ m1_ncols = m2_ncols then some (B.no, B.no) else if m1_nrows = 1 ∨ m1_ncols = 1 then "
+          "if (m1_ncols = m2_ncols) ∨ (m2_ncols = 1) then some (if m1_nrows = 1 then ((B.v m2_nrows), B.no) else (B.bad, B.bad)) else none else "
+          "(rec m2_nrows m2_ncols m1_nrows m1_ncols).bind fun (r1 : B × B) => let t2 : B × B := r1 some (t2.2, t2.1)",
+          mut=True, int_arith=True, adts={"Bc": "B"}, adt_ctors={"Bc::No": "B.no", "Bc::V": "B.v", "Bc::Bad": "B.bad"},
+          struct_types={"Mx": [("nrows", "nat"), ("ncols", "nat")]}, struct_methods={"Mx": {"shape": ["nrows", "ncols"]}},
+          fns={"m_tree": "rec"}, opt_fns=("m_tree",))
+    check("m_jack", "let r : List (List α) := List.foldl (fun (r : List (List α)) (i : Nat) => "
+          "let t1 : (List α) × (List α) := ((List.take i d), (List.drop i d)) let t2 : α × (List α) := (t1.2[0]!, (List.tail t1.2)) "
+          "let v : List α := t1.1 let v : List α := (v ++ t2.2) let r : List (List α) := (r ++ [v]) r) ([] : List (List α)) (List.range d.length) r",
+          mut=True, int_arith=True)
+    check("m_frag", "let c : List α := List.foldl (fun (c : List α) (i : Nat) => let t : α := a[i]! let c : List α := List.foldl (fun (c : List α) (j : Nat) => "
+          "let c : List α := (List.set c ((i * n) + j) (c[((i * n) + j)]! + (t * a[j]!))) c) c (List.range n) c) c (List.range n) c",
+          mut=True, int_arith=True, closure=dict(kind="for", index=0, free={"a": ("a", "vec"), "c": ("c", "vec", "mut"), "n": ("n", "nat")}))
+    check("P::step", "((a * m) + g)", mut=True, closure=dict(kind="assign", name="m", index=0, free={"self.a": "a"},
+          index_vars={("m", "p"): "m", ("g", "p"): "g"}))
+    # `Var - f64` of the `reverse` crate is `val + (-rhs)`
+    check("P::step", "(θ + (-(a * m')))", mut=True, closure=dict(kind="assign", name="params", index=0, free={"self.a": "a"},
+          index_vars={("m", "p"): "m'", ("params", "p"): ("θ", "var")}))
+    refuse("m_frag", "macro `weird!`", mut=True, int_arith=True)           # the function as a whole is outside the subset
+    # a panic source inside a branch of an `if` expression is not hoisted in front of the `if`: the `if` is evaluated in `Option`
+    check("m_hoist", "(if t then (T a).bind fun (r1 : List α) => some r1 else some a).bind fun (r2 : List α) => let b : List α := r2 some b",
+          fns={"tr": "T"}, opt_fns=("tr",), fn_ret={"tr": "vec"}, **M)
+    refuse("m_while", "only `for` loops", **M)
+    # a panic source inside a loop body: the loop is a `foldlM` in the panic `Option`
+    check("m_assert", 'let x : List α := a (List.foldlM (m := Option) (fun (x : List α) (i : Nat) => if (R a i) > 0 then let x : List α := (List.set x i 1) some x else none) x (List.range 2)).bind fun (x : List α) => some x', **M)
+    refuse("m_retsome", "anything but `None`", **M)
+    refuse("m_sub", "inside a closure / loop body", **M)
+    refuse("m_setlen", "differs from the capacity", **M)
+    refuse("m_rev", "macro `vec!`", **L)                                   # without the option nothing changes
+    refuse("m_fwd", "`unsafe` inside a function body", **L)
+    refuse("m_tree", "unexpected token '['", **L)
+    # ---- fourth pass
+    check("n_cfg", "let n : Nat := a.length let x : List α := a let x : List α := List.foldl (fun (x : List α) (i : Nat) => "
+          "let x : List α := (List.set x i 0) x) x (List.range n) x", cfg_features=(), **M)
+    refuse("n_cfg", "option cfg_features", **M)
+    refuse("n_cfg", "found", cfg_features=("fast",), **M)       # the other configuration is outside the subset
+    # short-circuit `&&` of panicking predicates, `if` with a panicking branch, `if let`
+    check("n_route", "(PD a).bind fun (r1 : Bool) => (if r1 then (SY a).bind fun (r2 : Bool) => some (decide r2) else some false).bind fun (r3 : Bool) => "
+          "(if r3 then (CH a).bind fun (r4 : Option (List α)) => some r4 else some none).bind fun (r5 : Option (List α)) => "
+          "let l : Option (List α) := r5 match l with | some l => (CS l b).bind fun (r6 : List α) => some r6 | none => some b",
+          fns={"pd": "PD", "sym": "SY", "chol": "CH", "csolve": "CS"}, opt_fns=("pd", "sym", "chol", "csolve"),
+          fn_ret={"pd": "bool", "sym": "bool", "chol": ("opt", "vec"), "csolve": "vec"}, **M)
+    # panic sources inside a loop body: foldlM in the panic Option
+    check("n_cols", "(List.foldlM (m := Option) (fun (out : List α) (i : Nat) => (CS a (List.take (((i + 1) * n) - (i * n)) (List.drop (i * n) a))).bind "
+          "fun (r1 : List α) => let s : List α := r1 if s.length = n then let out : List α := (out ++ s) some out else none) ([] : List α) "
+          "(List.range k)).bind fun (out : List α) => some out", fns={"csolve": "CS"}, opt_fns=("csolve",), fn_ret={"csolve": "vec"}, **M)
+    # the division of the inner loop header repeats the guard of the outer one
+    check("n_tiles", "let c : List α := (List.replicate n 0) if 0 < bs then let c : List α := List.foldl (fun (c : List α) (jj : Nat) => "
+          "let c : List α := List.foldl (fun (c : List α) (kk : Nat) => let c : List α := (List.set c jj ((R c jj) + (R a kk))) c) c "
+          "(List.range ((n / bs) + 1)) c) c (List.range ((n / bs) + 1)) some c else none", **M)
+    check("n_rot", "let d : List α := (match axis with | A.x => [1, (Cv.Transc.cos angle)] | A.y => [(Cv.Transc.sin angle), (-1)]) d",
+          adts={"Ax": "A"}, adt_ctors={"Ax::X": "A.x", "Ax::Y": "A.y"}, **M)
+    check("n_toep", "let n : Nat := x.length let v : List α := (List.replicate n 0) let v : List α := List.foldl (fun (v : List α) (i : Int) => "
+          "let v : List α := (List.set v (Int.toNat i) (R x (Int.natAbs (i - 1)))) v) v "
+          "(List.map (fun (k : Nat) => ((k : Nat) : Int)) (List.range (Int.toNat ((n : Nat) : Int)))) v", **M)
+    check("n_ar", "let n : α := (Cv.Transc.ceil (b - a)) (List.map (fun (i : Nat) => (a + ((i : Nat) : α))) (List.range (TU n)))",
+          f64_to_usize="TU {0}", **M)
+    refuse("n_ar", "cast of f64 to usize", **M)
+    check("Mx::eye", "(Z d d).bind fun (r1 : MX) => let m : MX := r1 let m_data : List α := List.foldl (fun (m_data : List α) (i : Nat) => "
+          "let m_data : List α := (List.set m_data ((i * d) + i) 1) m_data) m.data (List.range d) some (MK m_data m.nrows m.ncols)",
+          adts={"Mx": "MX"}, struct_types={"Mx": [("data", "vec"), ("nrows", "nat"), ("ncols", "nat")]}, struct_mk={"Mx": "MK"},
+          fns={"Self::zeros": "Z"}, fn_ret={"Self::zeros": ("adt", "Mx", "MX")}, opt_fns=("Self::zeros",), **M)
     # the test module's `logistic` is not a candidate; unknown names are reported
     try:
         S.find_fn("nope")
